@@ -68,13 +68,24 @@ class NL:
 def build(nl, style='bench'):
     """styles: bench (every signal a fork, ports are the forks themselves - like bench.parse),
     verilog ('input'/'output' cells plus a fork per signal - like verilog.parse), lean (verilog + eliminate_1to1_forks),
-    vbf (verilog plus a branch fork in front of every reader pin - like verilog.parse(branchforks=True): forks fed by forks)."""
+    bench2 (bench with the node creation order of bench.parse), vbf (verilog plus a branch fork in front of every reader pin - like verilog.parse(branchforks=True): forks fed by forks)."""
     c = Circuit(nl.name)
     forks = {}
 
     def fork(s):
         if s not in forks: forks[s] = Node(c, s)
         return forks[s]
+    if style == 'bench2':
+        # node creation order of bench.parse: per statement the cell, its output fork, then input forks on demand - forks get low indices,
+        # so removing them moves late nodes (e.g. flip-flops) into the freed positions
+        for s, d in nl.ports: c.io_nodes.append(fork(s))
+        for name, kind, outs, ins in nl.gates:
+            cell = Node(c, name, kind)
+            for pin, o in enumerate(outs):
+                if o is not None: Line(c, (cell, pin), fork(o))
+            for pin, i in enumerate(ins):
+                if i is not None: Line(c, fork(i), (cell, pin))
+        return c
     if style == 'bench':
         for s, d in nl.ports: c.io_nodes.append(fork(s))
     else:
@@ -172,6 +183,8 @@ def g2_shapes():
     S.append(NL('toggle2', [('en', 'in'), ('o', 'out')],
                 [('f0', 'DFF', ['q0', 'q0n'], ['d0']), ('f1', 'DFF', ['q1', None], ['d1']), ('x0', 'XOR2', ['d0'], ['q0', 'en']),
                  ('a1', 'AND2', ['c0'], ['q0', 'en']), ('x1', 'XOR2', ['d1'], ['q1', 'c0']), ('o1', 'NOR2', ['o'], ['q0n', 'q1'])]))
+    # state elements are the last statements, their signals are used by earlier ones (forks with low node indices, flip-flops with the highest)
+    S.append(NL('dffs_last', [('a', 'in'), ('o', 'out')], [('x', 'BUF1', ['xs'], ['a']), ('g', 'AND2', ['o'], ['q2', 'q1']), ('f1', 'DFF', ['q1', None], ['xs']), ('f2', 'DFF', ['q2', None], ['q1'])]))
     S.append(NL('dff_no_pins', [('a', 'in'), ('o', 'out'), ('p', 'out')], [('f', 'DFF', ['q', 'qn'], []), ('g', 'dff', ['r', None], [None, 'a']), ('h', 'XOR2', ['o'], ['q', 'a']), ('k', 'NOR2', ['p'], ['qn', 'r'])]))
     S.append(NL('driven_port_2readers', [('x', 'in'), ('y', 'in'), ('a', 'out'), ('p', 'out'), ('q', 'out')],
                 [('g0', 'NAND2', ['a'], ['x', 'y']), ('g1', 'INV1', ['p'], ['a']), ('g2', 'AND2', ['q'], ['a', 'x'])]))
